@@ -16,7 +16,7 @@ import time
 from . import common
 
 ALL_OPS = ['mset', 'mdel', 'mpop', 'mget', 'mupdate', 'mclear', 'aset', 'adel', 'load', 'loadk', 'dump', 'dumpk',
-           'sync', 'arch_on', 'arch_off', 'open', 'drop', 'archived',
+           'sync', 'arch_on', 'arch_off', 'open', 'assign', 'drop', 'archived',
            'mlen', 'mkeys', 'mcontains', 'msetdefault', 'mpopitem', 'mpopkeys', 'mpopkeysd', 'aclear', 'aupdate']
 
 
@@ -212,6 +212,8 @@ class StoreRecorder(object):
                     c.archived(False)
                 elif op == 'open':
                     c.open(self.handles[o['x'] - 1][0])
+                elif op == 'assign':         # the bare property setter (x = 0: a null archive)
+                    c.archive = self.handles[o['x'] - 1][0] if o['x'] else self.klepto._archives.null_archive()
                 elif op == 'drop':
                     c.drop()
                 elif op == 'archived':
@@ -297,6 +299,8 @@ def random_ops(rng, n):
             o['k'] = rng.randint(1, NK)
         if op in ('aset', 'adel', 'open', 'aclear', 'aupdate'):
             o['x'] = rng.randint(1, NA)
+        if op == 'assign':
+            o['x'] = rng.randint(0, NA)
         if op == 'aupdate':
             o.update({'k': 1, 'v': 10 + rng.randint(1, 3), 'k2': 2, 'v2': 20 + rng.randint(1, 3)})
         if op in ('mpopkeys', 'mpopkeysd'):
@@ -327,7 +331,7 @@ def main(pid, tier):
     behaviours += b
     gen_states += st
     # all sequences of length 3 (4 in the thorough tier) over the synchronisation operations
-    ex_ops = {'mset', 'aset', 'load', 'dump', 'sync', 'arch_on', 'arch_off', 'mdel', 'open', 'drop'}
+    ex_ops = {'mset', 'aset', 'load', 'dump', 'sync', 'arch_on', 'arch_off', 'mdel', 'open', 'assign', 'drop'}
     b, st = generate(dict(NK=1, NA=2, VALS={1, 2}, OPS=ex_ops), work, 0, 4 if thorough else 3, 0, exhaustive=True)
     behaviours += b
     gen_states += st
